@@ -390,6 +390,15 @@ fn loader_direct(case: &Case, prep: &Prepared, node: u8, via: u8) -> DriveResult
     }
 }
 
+/// The memory clock's budget: peak of live bytes allocated by the run's thread (library and
+/// harness trace together). The scanner reserves `bufmaxlen()` bytes for every plain scalar, so
+/// the budget has a term in the input's capacity. Observed maximum on the pinned tree: about
+/// 940 bytes per character (a `- - - ...` nest loaded into MarkedYamlOwned nodes: a node, a
+/// Vec of four slots and the parser's state per two characters), i.e. 8 % of this budget.
+pub fn mem_budget(n_chars: usize, capacity: usize) -> u64 {
+    65_536 + (n_chars as u64 + 16) * (8192 + 4 * capacity as u64)
+}
+
 pub fn execute(case: &Case, record_seed: Option<u64>) -> Outcome {
     let prep = Prepared::new(&case.text, case.eof_at, case.keep_tags);
     let n = prep.n_chars;
@@ -398,14 +407,17 @@ pub fn execute(case: &Case, record_seed: Option<u64>) -> Outcome {
         None => Tape::replay(case.tape.clone()),
     };
     clock::begin(work_budget(n), tape);
+    crate::alloc::tl_start();
     let res = match case.client {
         Client::Loader(node, via) if via == 1 || via == 2 => loader_direct(case, &prep, node, via),
         _ => with_parser(case.input, &prep, Drive { case, max_events: event_budget(n) }),
     };
+    let (_, mem_peak) = crate::alloc::tl_stop();
     let ticks = clock::ticks();
     let work = clock::work();
     let mut out = Outcome {
         work,
+        mem_peak,
         n_chars: n as u64,
         events: res.events,
         ticks,
@@ -436,6 +448,19 @@ pub fn execute(case: &Case, record_seed: Option<u64>) -> Outcome {
                 res.events,
                 ticks,
                 n
+            ),
+        ));
+    }
+    let budget = mem_budget(n, case.input.capacity());
+    if out.violation.is_none() && mem_peak > budget {
+        out.violation = Some((
+            "MEMORY(peak-budget)".into(),
+            format!(
+                "{mem_peak} bytes live at the peak for {n} characters, budget {budget} [input={} client={} after {} events then {}]",
+                case.input.describe(),
+                case.client.describe(),
+                res.events,
+                res.end.describe()
             ),
         ));
     }
